@@ -64,6 +64,24 @@ CLAIMED = {
         "and compared with the recorded CheckSum() for all four EAN input lengths, random Code 128 and Code 39 contents in every option mix; each barcode of a sample is "
         "then scaled 1-3 times and TraceScale.tla requires the interface and value to be preserved link by link. Model phase: check automata of MC_EAN / MC_Code39.",
    note=COMMON_NOTE, technique="trace validation with TLA+ reference readers and the Scale handle-table spec (TLC)", ref="5/C14"),
+ "C01": dict(
+   text="QR.tla is a complete reference reader in TLA+: function-pattern geometry, BCH format/version words computed by division, unmasking, the placement walk, "
+        "de-interleaving by the ISO block table, Reed-Solomon syndromes of every block over GF(256)/285, and the segment/terminator/pad automaton. TLC model-checks that "
+        "the walk state machine equals the reader's closed form for all versions with RawModules(v) data modules, that the 32+34 BCH words have full minimum distance, "
+        "the block-table laws, and that the stream at the capacity boundary of all 480 (version, level, mode) cells parses back. Every image returned by the real "
+        "encoder (boundary lengths of every version x level x mode in the thorough tier, versions 1-8 plus seeded larger ones in the quick tier, all alphanumeric "
+        "characters, all byte values, Auto on digit/alphanumeric/mixed/sign-bearing text, random contents) is validated by TraceQR.tla: decoded bytes = content.",
+   note=COMMON_NOTE + " QR block table and alignment centres are written from ISO/IEC 18004 in tools/gentables1d.py. Any of the 8 masks is accepted (mask choice is not a property).",
+   technique="TLA+ model checking of geometry/BCH/capacity + trace validation with a TLA+ reference reader (TLC)", ref="5/C01"),
+ "C02": dict(
+   text="DM.tla is a complete reference reader: the 24 ECC 200 sizes, L finder and clock track of every region, the Annex F placement algorithm as a state machine "
+        "(corner cases, wrap-around, fixed pattern), Reed-Solomon blocks over GF(256)/301, the ASCII-encodation automaton with 253-state pad un-randomising. TLC checks "
+        "for all 24 sizes that the placement assigns every module exactly once or leaves exactly the fixed pattern and uses data+check codewords, and that the encoder "
+        "model of ASCII encodation and padding is inverted by the reader automaton for all class strings up to length 6 (thorough 8) and every pad run. Every image "
+        "returned by the real encoder (both boundary codeword counts of each size in three recipes, all byte values, digit runs at every alignment, overflow, random) "
+        "is validated by TraceDM.tla; the quick tier requires all 24 sizes to have been decoded.",
+   note=COMMON_NOTE + " 144x144 check-word interleaving follows the ISO reference encoder.",
+   technique="TLA+ model checking of the placement algorithm and encodation automaton + trace validation with a TLA+ reference reader (TLC)", ref="5/C02"),
 }
 
 NOT_YET = "check not built yet in this revision (planned per DESIGN.md section 10); not claimed"
